@@ -1008,6 +1008,10 @@ impl<const M: usize> Sim<M> {
                 if grow && new_align <= M && new_align <= old_align && round_up(new_size, M) <= cap_before {
                     let p = if self.limit.is_some() { "C07" } else { "C09" };
                     rep.violate(p, format!("{}/fitting-request-failed/{}", p, name), self.cur.clone());
+                } else if grow && was_last && new_align <= old_align && round_up(new_size, M) >= old_size && round_up(round_up(new_size, M) - old_size, old_align.max(M)) <= cap_before {
+                    // the newest block can be extended into the room left in its chunk: that needs no new chunk
+                    let p = if self.limit.is_some() { "C07" } else { "C09" };
+                    rep.violate(p, format!("{}/fitting-request-failed/{}/extension-of-the-newest-block", p, name), format!("{} with {} bytes left in the chunk", self.cur, cap_before));
                 }
                 Outcome::Err
             }
@@ -1292,6 +1296,7 @@ impl<const M: usize> Sim<M> {
                 let msg = last_panic();
                 if fallible {
                     rep.violate("C09", format!("C09/try-method-panicked/huge:{}/{}", name, normalise_msg(&msg)), format!("{} ({})", msg, self.cur));
+                    rep.violate("C19", format!("C19/fallible-method-panicked-instead-of-returning-an-error/huge:{}", name), format!("{} ({})", msg, self.cur));
                 } else if classify_panic(&msg) == PanicClass::Other {
                     rep.violate("C19", format!("C19/unexpected-panic/huge:{}/{}", name, normalise_msg(&msg)), format!("{} ({})", msg, self.cur));
                 }
@@ -1320,6 +1325,9 @@ impl<const M: usize> Sim<M> {
             rep.violate("C09", format!("C09/failure-changed-held-memory/{}", what), format!("chunks {} -> {}, abim {} -> {} ({})", before.chunks.len(), now.chunks.len(), before.abim, now.abim, self.cur));
         } else if now.cap < before.cap {
             rep.violate("C09", format!("C09/failure-consumed-capacity/{}", what), format!("capacity {} -> {} ({})", before.cap, now.cap, self.cur));
+        } else if now.cap > before.cap {
+            // room appeared out of nowhere: the failed call gave away memory of blocks that are still live
+            rep.violate("C09", format!("C09/failure-released-live-memory/{}", what), format!("capacity {} -> {} although nothing was deallocated ({})", before.cap, now.cap, self.cur));
         }
         rep.bump("c09.failure_state_checks");
     }
